@@ -104,7 +104,7 @@ pub fn judge(rep: &mut Report, solver: Solver, cfg: &Cfg, n: usize, y0: &[f64], 
                 rep.violation("Euler/initial-item", case(), format!("first item is not (t0, y0): {:?}", pts.first()));
                 return j;
             }
-            let dt = cfg.dt_max;
+            let dt = if out.euler_min_applied { cfg.dt0() } else { cfg.dt_max };
             // plain repeated addition, and repeated addition with the final step clipped to the end
             let mut plain = vec![cfg.t0];
             let mut t = cfg.t0;
@@ -180,7 +180,11 @@ pub fn judge(rep: &mut Report, solver: Solver, cfg: &Cfg, n: usize, y0: &[f64], 
 }
 
 fn run_case(rep: &mut Report, solver: Solver, mode: DimMode, prob: &IvpProblem, cfg: &Cfg, max_items: usize, also_collect: bool) {
-    let opts = Opts { budget: 3_000_000, max_items, mode, extra_next: 2, order: ((cfg.t1.to_bits() >> 7) % 6) as u8, ..Default::default() };
+    // Euler: in half of the cases the minimum step is configured too (the step is then the mean of the two bounds)
+    let opts = Opts { budget: 3_000_000, max_items, mode, extra_next: 2, order: ((cfg.t1.to_bits() >> 7) % 6) as u8, euler_min: (cfg.t1.to_bits() >> 11) % 2 == 1, ..Default::default() };
+    if solver == Solver::Euler && opts.euler_min {
+        rep.count("Euler/solves_with_both_step_bounds_configured", 1);
+    }
     let out = solve_real(solver, cfg, &prob.y0, prob, &opts);
     rep.eval();
     let case = || J::obj().set("solver", solver.name()).set("mode", format!("{:?}", mode)).set("cfg", cfg.to_json()).set("problem", prob.to_json());
@@ -402,6 +406,41 @@ pub fn stages(ctx: &Ctx) -> Vec<Stage> {
         rep.count("startup_boundary_cases", 1);
         run_case(rep, solver, if pi % 2 == 0 { DimMode::Dynamic } else { DimMode::Static }, &prob, &cfg, 5_000, false);
     }));
+    // Boundary coincidence "estimate == tolerance" (see C03): at the two adjacent tolerances between
+    // which the first accept/reject decision flips, an accepted step must also be yielded — a step
+    // that is taken but not yielded shows here as a gap of two steps or as a missing end point.
+    let neq = ctx.tier.pick(200, 4_000);
+    st.push(Stage::new("estimate-equals-tolerance", neq, move |i, rep| {
+        let mut rng = if i < 20 { Rng::for_case(7117, "c01-eqtol-anchor", i) } else { Rng::for_case(seed, "c01-eqtol", i) };
+        let solver = if i % 2 == 0 { Solver::RK45 } else { Solver::RK23 };
+        let n = 1 + rng.below(3);
+        let fl = rng.below(6);
+        let prob = IvpProblem::gen(&mut rng, n, fl);
+        let tol_scale = rng.log10(-9.0, -5.0);
+        // a cap well above the accuracy rule, so that the first trial is a large share of dt_max
+        let dt_max = dtmax_for(solver, prob.lip, tol_scale, 1.0) * rng.r(2.0, 6.0);
+        // half of the cases with a sizeable minimum step: the first trial is then well above dt_max/2
+        let dt_min = if rng.bool() { dt_max * 1e-9 } else { dt_max * rng.r(0.1, 0.8) };
+        let t0 = rng.r(-1.0, 1.0);
+        // the first step is the final step in a third of the cases (interval = one trial step)
+        let steps = if rng.chance(0.33) { 1.0 } else { rng.r(3.0, 6.0) };
+        let base = Cfg { t0, t1: t0 + (dt_max + dt_min) * 0.5 * steps, dt_min, dt_max, tol: 1.0 };
+        if steps == 1.0 {
+            // final-step variant: acceptance is observed through the end point itself
+            rep.count("eq_tol/single_step_intervals", 1);
+        }
+        match crate::checks::c03::locate_equal_tolerance(solver, &prob, &prob.y0, &base) {
+            Ok((lo, hi, probes)) => {
+                rep.evals(probes);
+                rep.count(&format!("{}/estimate_equals_tolerance_cases", solver.name()), 1);
+                for bits in [lo, hi] {
+                    let cfg = Cfg { tol: f64::from_bits(bits), ..base.clone() };
+                    run_case(rep, solver, DimMode::Dynamic, &prob, &cfg, 5_000, false);
+                }
+            }
+            Err(why) => rep.count(&format!("eq_tol/{}", why), 1),
+        }
+    }));
     st
 }
 
@@ -412,6 +451,10 @@ pub fn thresholds(ctx: &Ctx, rep: &Report) -> Vec<Threshold> {
     for s in [Solver::RK45, Solver::RK23] {
         t.push(Threshold { what: format!("{} solves in which a rejected step was observed", s.name()), required: ctx.tier.pick(20.0, 200.0), observed: rep.counter(&format!("{}/solves_with_rejections", s.name())) as f64 });
     }
+    for s in [Solver::RK45, Solver::RK23] {
+        t.push(Threshold { what: format!("{}: tolerances located where the first trial's estimate equals the tolerance exactly", s.name()), required: ctx.tier.pick(40.0, 800.0), observed: rep.counter(&format!("{}/estimate_equals_tolerance_cases", s.name())) as f64 });
+    }
+    t.push(Threshold { what: "Euler solves with both step bounds configured".into(), required: ctx.tier.pick(500.0, 10_000.0), observed: rep.counter("Euler/solves_with_both_step_bounds_configured") as f64 });
     for s in [Solver::Adams5, Solver::Adams3, Solver::BDF6, Solver::BDF2] {
         t.push(Threshold { what: format!("{} solves with a multistep restart", s.name()), required: ctx.tier.pick(20.0, 200.0), observed: rep.counter(&format!("{}/solves_with_restart", s.name())) as f64 });
         t.push(Threshold { what: format!("{} solves with shortened start-up", s.name()), required: 10.0, observed: rep.counter(&format!("{}/solves_startup_shortened", s.name())) as f64 });
